@@ -153,7 +153,13 @@ impl<'a> Remote<'a> {
                     .with(|waker| cx.waker().will_wake(unsafe { (&*waker).assume_init_ref() }))
             {
                 // Waker is already up-to-date, leave it in place.
-                self.header().state.finish_setting_waker::<true>();
+                let after = self.header().state.finish_setting_waker::<true>();
+                if after.has_result() || after.is_cancelled() {
+                    // The task finished or was dropped inside our critical section and
+                    // therefore did not wake us: look again instead of waiting forever.
+                    state = self.state();
+                    continue;
+                }
                 break Poll::Pending;
             }
 
@@ -172,7 +178,13 @@ impl<'a> Remote<'a> {
                 waker.write(cx.waker().clone());
             });
 
-            self.header().state.finish_setting_waker::<true>();
+            let after = self.header().state.finish_setting_waker::<true>();
+            if after.has_result() || after.is_cancelled() {
+                // The task finished or was dropped inside our critical section and
+                // therefore did not wake us: look again instead of waiting forever.
+                state = self.state();
+                continue;
+            }
 
             break Poll::Pending;
         }
